@@ -260,6 +260,9 @@ def decl_of(kind_or_top, clocked=None):
     return ports
 
 
+ORDER_INL = {}
+
+
 def run(ck: common.Check, replay=None):
     ck.check_props("C12_Properties.v")
     n = 40 if ck.tier == "quick" else 200
@@ -270,6 +273,7 @@ def run(ck: common.Check, replay=None):
         mids = {i: ck.rng.choice(["arch", "ctx"]) for i, c in enumerate(net.cells) if ck.rng.random() < 0.35}
         inl = frozenset(i for i, c in enumerate(net.cells) if ck.rng.random() < 0.25)
         items.append((f"tree{k:04d}", net, mids, render(net, True, mids, inl), render(net, False, mids)))
+        ORDER_INL[f"tree{k:04d}"] = inl          # export for c12_order.run_trees
         for fl in set(mids.values()):
             ck.hist("mid_template_instances_created_in", fl)
         ck.hist("top_instances_inside_context", len(inl))
@@ -372,3 +376,5 @@ def run(ck: common.Check, replay=None):
                       "trace equality with the inlined rendering for all input sequences")
     ck.trusted += ["fail-closed VHDL reader and its net-collapse elaboration (the meaning given to port maps)", "Vhdl.Sem"]
     ck.assumptions += ["instantiation trees are sampled; nested std Blocks are not generated (std.block raises TypeError on this tree)"]
+    # all-graphs model of the instantiation bookkeeping (Models/EmitOrder.v): these netlists + its own instantiation graphs
+    __import__("c12_order").run_extra(ck, [(it[0], it[1], it[2], ORDER_INL[it[0]], it[3], r["vhdl"]) for it, r in zip(items, res[0::2]) if r["ok"]])
